@@ -32,7 +32,7 @@ _seen = set()
 
 
 def priority(inp):
-    f = (bool(inp.get("cached")), inp["nlin"], inp["pt"] > 1, inp["no"] > 0)
+    f = (bool(inp.get("cached")), inp["nlin"], inp["pt"] > 1, inp["no"] > 0, inp["s"] is not None)
     if f in _seen:
         return 1
     _seen.add(f)
@@ -99,6 +99,10 @@ def check_cached(inp, prior, data, fails):
     from thejoker import RVData
     lib = prior.sample(size=48, rng=np.random.default_rng(inp["seed"] + 1))
     nl = inp["nlin"]
+    if "s" in lib.par_names:
+        # the jitter column stored in another (equivalent) unit than the data's: every path must convert it
+        vu_ = u.Unit(inp["vu"])
+        lib.tbl["s"] = lib.tbl["s"].to(u.m / u.s if vu_ == u.km / u.s else u.km / u.s)
     # weakly informative data, so that several prior rows are accepted (the blocks of several batches have to be put together)
     weak = lambda d: RVData(t=d.t, rv=d.rv * 0.05, rv_err=d.rv_err * 20.0, t_ref=d.t_ref)
     data = [weak(d) for d in data] if isinstance(data, list) else weak(data)
@@ -110,10 +114,11 @@ def check_cached(inp, prior, data, fails):
     if len(got) != nl * len(mem):
         bad("n_linear_samples-rows-per-accepted-sample[cached,n_batches=3]", got=len(got), accepted=len(mem), nlin=nl)
         return fails
-    for nm, unit in (("P", u.day), ("e", u.one), ("omega", u.rad), ("M0", u.rad)):
+    cols = [("P", u.day), ("e", u.one), ("omega", u.rad), ("M0", u.rad)] + ([("s", u.km / u.s)] if "s" in lib.par_names else [])
+    for nm, unit in cols:
         a = np.repeat(np.asarray(mem[nm].to_value(unit)), nl)
         b = np.asarray(got[nm].to_value(unit))
-        if not np.allclose(a, b, rtol=1e-13, atol=0):
+        if not np.allclose(a, b, rtol=1e-12, atol=0):
             bad("each-draw-paired-with-its-own-nonlinear-row[cached,n_batches=3]", column=nm, want=a, got=b)
             return fails
     K = np.asarray(got["K"].value)
